@@ -8,6 +8,6 @@ Extraction "extracted/c02c/model.ml"
   AdfChunks.step AdfChunks.st0 AdfChunks.alloc_ok AdfChunks.safe_step AdfChunks.chunks_of AdfChunks.csize
   AdfChunks.live_extents AdfChunks.requests AdfChunks.fa_native AdfChunks.Cur AdfChunks.Before_d6f9e64
   AdfChunks.dget AdfChunks.addr AdfChunks.total_bytes AdfChunks.cap_of AdfChunks.wall_safe AdfChunks.wblock_safe
-  AdfChunks.zero_ok AdfChunks.esz AdfChunks.read_ptr
+  AdfChunks.zero_ok AdfChunks.buf_ok AdfChunks.nchunks_ok AdfChunks.esz AdfChunks.read_ptr
   AdfCodec.dec_node_header AdfCodec.dp_dec AdfCodec.repaired AdfCodec.tag4 AdfCodec.tag_DaTa AdfCodec.tag_dEnD
   AdfCodec.tag_DCtb AdfCodec.tag_dcTE.
